@@ -33,6 +33,21 @@ CHECKS = [
          text='Part A of DESIGN C03: tester, raiser guard, parameter guard and return guard are pairwise equivalent for all '
               'objects and draws; on the rejecting path exactly one get_violation call receives the same draw and the '
               'checked object and is followed by raise (or warn for Warning classes) under the same path condition.'),
+    dict(id='C12', engine='G', cat='translation_validation', ref='4/C12',
+         technique='SMT equivalence (XOR unsat) between the inline code generated for Annotated[T, V...] and the boolean meaning of the validator expression tree',
+         text='Engine G part of DESIGN C12: for every enumerated validator expression over Is/IsAttr/IsEqual/IsInstance/IsSubclass '
+              'with & | ~ (exhaustive to operator depth 1 quick / 2 thorough plus seeded deeper trees) the four generated guards '
+              'are equivalent to the meaning built from the tree, for all objects, with Is[f] uninterpreted and IsAttr modelled by '
+              'hasattr/attr (objects lacking the attribute, non-class objects for IsSubclass included); walrus-temporary '
+              'collisions surface as unbound/aliased-name side conditions. The is_valid-callable and diagnosis clauses '
+              '(Engine X) are not yet part of this check.'),
+    dict(id='C18', engine='G', cat='translation_validation', ref='4/C18',
+         technique='SMT equivalence (XOR unsat) of code generated under the rewriting configuration vs code generated for the hand-rewritten hint',
+         text='For hints containing float/complex (is_pep484_tower) or an overridden hint (hint_overrides, 11 override sets) the '
+              'tester, raiser, parameter and return guards generated under the option are equivalent, for all objects and draws, to '
+              'those generated under the default configuration for the hint rewritten by an independent rewriter; the '
+              'violation_* options leave every guard equivalent to the default one. Counter[T] with an override of int is '
+              'outside the claim (implicit value hint).'),
     dict(id='C09', engine='G', cat='translation_validation', ref='4/C09',
          technique='SMT (z3) cost term over item-reading AST nodes with unbounded symbolic container length',
          text='Fast path: the translator attaches a cost to every item read (x[i], next(iter(x)), mapping lookups; len for '
@@ -56,11 +71,9 @@ PENDING = [
     ('C04', 'planned (Engine G statement level); not yet built in this commit'),
     ('C06', 'planned (Engine P); not yet built in this commit'),
     ('C07', 'planned (Engine G, partial); not yet built in this commit'),
-    ('C12', 'planned (Engines G+X); not yet built in this commit'),
     ('C13', 'planned (Engine G, partial); not yet built in this commit'),
     ('C14', 'planned (Engine G, partial); not yet built in this commit'),
     ('C17', 'planned (Engine X); not yet built in this commit'),
-    ('C18', 'planned (Engine G); not yet built in this commit'),
     ('C19', 'planned (Engine G, partial); not yet built in this commit'),
     ('C20', 'planned (Engine G, partial); not yet built in this commit'),
 ]
